@@ -59,6 +59,7 @@ impl<R: Read + Seek> ReadBox<&mut R> for MdiaBox {
                     "mdia box contains a box with a larger size than it",
                 ));
             }
+            check_child_size(s)?;
 
             match name {
                 BoxType::MdhdBox => {
